@@ -4,7 +4,8 @@ package main
 // lean/SMGo/Gen/SM4Code.lean, and the Go standard library sources (go/types importer).
 //
 //   TestGoSM4Committed   the translation of the current sources is the committed SM4Code.lean, byte for byte
-//   TestGoSM4Stops       edits that leave the translator's subset are REFUSED with file:line (no output)
+//   TestGoSM4Stops       edits that leave the translator's subset are REFUSED with file:line (no output), including the
+//                        guard / reslice forms of the cipher.Block call sites (Encrypt, Decrypt, encryptX2, decryptX2)
 //   TestGoSM4Mutations   edits inside the subset that change the meaning translate, and the output differs from the
 //                        committed file (the Lean equality proofs of Proofs/SM4Gen*.lean / Props/C05Gen.lean then fail:
 //                        checked by hand when they were written, see the comment at each case)
@@ -134,6 +135,17 @@ func TestGoSM4Stops(t *testing.T) {
 			"z0 ^= ss(t) >> (t & 3)", "shift count is not a translation-time constant"},
 		{"read after write (aliasing)", s4Round1, "\n\tz0 ^= ss(t); y[0] = x[1]; z0 ^= uint32(x[0])\n",
 			"y[0] = x[1]", "reads x after writing y (they may alias)"},
+		// the cipher.Block call sites: only `if len(x) < K { panic("literal") }` at the top of the function
+		{"guard with else", "\t\tpanic(\"crypto/sm4: input not full block\")\n\t}\n", "\t\tpanic(\"crypto/sm4: input not full block\")\n\t} else {\n\t\tdst[0] = 0\n\t}\n",
+			"} else {", "guard with an else branch"},
+		{"panic argument not a literal", "panic(\"crypto/sm4: output not full block\")", "panic(KeySizeError(len(dst)))",
+			"panic(KeySizeError(len(dst)))", "panic argument is not a string literal"},
+		{"guard condition of another form", "if len(src) < BlockSize {", "if len(src) != BlockSize {",
+			"if len(src) != BlockSize {", "unsupported guard condition"},
+		{"guard after the call", "\tcryptoBlock(src[:BlockSize], dst[:BlockSize], &sm4.enc)\n", "\tcryptoBlock(src[:BlockSize], dst[:BlockSize], &sm4.enc)\n\tif len(dst) < 32 {\n\t\tpanic(\"late\")\n\t}\n",
+			"if len(dst) < 32 {", "unsupported if statement"},
+		{"reslice beyond what the callee got", "cryptoBlockX2(src[:BlockSize<<1], dst[:BlockSize<<1], &sm4.enc)", "cryptoBlockX2(src[:BlockSize], dst[:BlockSize<<1], &sm4.enc)",
+			"cryptoBlockX2(src[:BlockSize], dst", "shorter than the 32 elements needed"},
 	}
 	for _, c := range cases {
 		t.Run(c.name, func(t *testing.T) {
@@ -169,6 +181,16 @@ func TestGoSM4Mutations(t *testing.T) {
 		{"length test inverted", "if k != BlockSize {", "if k == BlockSize {"},
 		// Proofs/SM4GenKey.lean, gen_expandKey_eq_model: 84 instead of 96 round-key lets, extract_lets names run out
 		{"key schedule loop bound", "for i := 0; i < 32; {", "for i := 0; i < 28; {"},
+		// Props/C05Gen.lean, gen_Decrypt_eq_spec: `crypt_window c.dec …` no longer rewrites (the code passes c.enc)
+		{"Decrypt uses enc", "cryptoBlock(src[:BlockSize], dst[:BlockSize], &sm4.dec)", "cryptoBlock(src[:BlockSize], dst[:BlockSize], &sm4.enc)"},
+		// gen_Encrypt_eq_spec: source and destination exchanged in the call
+		{"Encrypt argument order", "cryptoBlock(src[:BlockSize], dst[:BlockSize], &sm4.enc)", "cryptoBlock(dst[:BlockSize], src[:BlockSize], &sm4.enc)"},
+		// gen_Encrypt_panics_src / _dst: the messages (and the order of the tests) are part of the statements
+		{"guards exchanged", "if len(src) < BlockSize {\n\t\tpanic(\"crypto/sm4: input not full block\")", "if len(dst) < BlockSize {\n\t\tpanic(\"crypto/sm4: input not full block\")"},
+		// gen_Encrypt_panics_src: `if_pos h` no longer applies for 8 ≤ len(src) < 16; Encrypt_pre would demand 16 ≤ len(src)
+		{"guard bound", "if len(src) < BlockSize {", "if len(src) < 8 {"},
+		// gen_encryptX2_eq_spec: the window lemma is about [:32]
+		{"X2 reslice", "cryptoBlockX2(src[:BlockSize<<1], dst[:BlockSize<<1], &sm4.enc)", "cryptoBlockX2(src[:BlockSize<<1], dst[:BlockSize<<2], &sm4.enc)"},
 	}
 	for _, c := range cases {
 		t.Run(c.name, func(t *testing.T) {
